@@ -274,6 +274,16 @@ def applyStorageMode (isSecret : Str → Bool) (env : UploadEnv) (mode : Mode) (
         some (if q.2 then q.1 else stripMessages q.1)
     else some (stripMessages ps)
 
+/-- What one arm of the storage-mode `match` does to the messages of the prompts (the
+    extractor classifies each arm of the real `match` into one of these). -/
+inductive Action where
+  | strip | redact | uploadThenStrip | keep
+  deriving Repr, DecidableEq, Inhabited
+
+/-- the arm shapes `applyStorageMode` models -/
+def modelledPolicy : List (Mode × Action) :=
+  [(.local, .strip), (.notes, .redact), (.default, .uploadThenStrip)]
+
 /-! ## 5. Note writers (rows of the extracted `StorageModeTable`) and the history machine -/
 
 /-- Which notes ref a writer feeds: `refs/notes/ai` is pushed (`AI_AUTHORSHIP_PUSH_REFSPEC`),
